@@ -201,10 +201,16 @@ def build_class(spec, sink):
 
     def mk_enter(name):
         def method(self):
-            sink(self, ['enter', 'method', name, get_data(self)])
+            before = get_data(self)
+            sink(self, ['enter', 'method', name, before])
             for req in self.x_chain.get(name, []):
                 res = self.event(mk_ev(req['ev']), **real_data(req.get('data', {})))
                 sink(self, ['chain-res', canon(res)])
+                # the action is still the one caused by the same event: whatever the
+                # nested request did (accepted, rejected, error), the data must not change
+                after = {k: v for k, v in fed.get().items()}
+                if canon(after) != canon(before):
+                    sink(self, ['data-changed', name, canon(before), canon(after)])
         method.__name__ = f"enter_{name}"
         return method
 
@@ -323,6 +329,8 @@ def normalise_observed(entries):
             out.append([kind, e[1], e[2], canon(e[3])])
         elif kind == 'chain-res':
             out.append(e)
+        elif kind in ('data-changed', 'rw-data'):
+            continue    # out-of-band probes, judged by the check itself
         else:
             out.append(canon(e))
     return out
